@@ -34,8 +34,8 @@ def lexeme_ok(m, d):
     cl = m["class"]
     if cl == "lex_nonascii":
         return any(a.lower().lstrip("0x") == "e9" for a in args)
-    if cl == "argcount":
-        return args[:3] == ["f1x", "3", "1"]
+    if cl.startswith("argcount"):
+        return args[:3] == [m["lexeme"], "3", "1"]
     return any(a.lower() == m["lexeme"].lower() for a in args)
 
 
@@ -55,7 +55,7 @@ def run(ctx):
         tag, path, m, tool = j
         # the argument-count diagnostic is a warning: warnings are off unless asked for
         rc, err, n = fc.run_tool(bdir, tool, path, os.path.join(wd, "run", tag + "_" + tool),
-                                 ["-w", "all"] if m["class"] == "argcount" else [])
+                                 ["-w", "all"] if m["class"].startswith("argcount") else [])
         return tag, tool, rc, diag.parse(err, tbl), err
     res = {}
     with cf.ThreadPoolExecutor(max_workers=14) as ex:
@@ -108,7 +108,7 @@ def run(ctx):
 
     def fone(j):
         tag, path, m, cls, opt = j
-        base = ["-w", "all"] if m["class"] == "argcount" else []
+        base = ["-w", "all"] if m["class"].startswith("argcount") else []
         rc1, err1, _ = fc.run_tool(bdir, "check-express", path, os.path.join(wd, "run", "f%s_%s_%s" % (tag, opt[1], cls)), base + [opt, cls])
         return j, rc1, err1
     fres = {}
